@@ -34,7 +34,7 @@ def placements(tier):
             # the same placement at another origin, and with one more .break written BEFORE the .orig line
             # (it marks the first word of the program, wherever the program is loaded)
             if n <= (2 if tier == "quick" else 4):
-                for o in ("x4000", "x0200", "xFDF0", "x3000"):
+                for o in ("x4000", "x0200", "xFDF0", "x3000", "x0001", "x0002"):     # incl. origins SMALLER than the number of statements
                     out.append(".orig " + o + src)
                     out.append(".break\n.orig " + o + src)
                     out.append("first .break\n.break\n.orig " + o + src)
